@@ -365,7 +365,10 @@ class RefServer:
                     self.challenge = binascii.hexlify(hashlib.sha1(b'chal' + self.nonce).digest())
                     self.state, self.mech = 'WFD', mech
                     cid = b'12' if self.cookie_mode == 'unknown-id' else b'11'
-                    return self._send(b'DATA ' + binascii.hexlify(b'org_verif_ref ' + cid + b' ' + self.challenge))
+                    enc = binascii.hexlify(b'org_verif_ref ' + cid + b' ' + self.challenge)
+                    if (len(self.accept) + (self.external_style == 'data')) % 2:
+                        enc = enc.upper()       # hex digits may be capitals
+                    return self._send(b'DATA ' + enc)
                 return self._reject()
             if cmd == b'BEGIN':
                 self.closed = True
